@@ -141,7 +141,7 @@ func enumerateCbor(tier string, shard, n int, timeUp func() bool, emit func(p se
 		for shift := 0; shift < 150; shift++ {
 			pad := seqx.Field{M: "Str", Key: "pad", Val: strings.Repeat("p", 3990+shift)}
 			at([]seqx.Field{pad, {M: "Ints", Key: "ints", Val: []int{1, 2, 3, 4, 5, 6, 7, 8, 9, 10, 300, 70000}}, {M: "Strs", Key: "ss", Val: []string{"a", "bb", "ccc"}}, {M: "Floats64", Key: "fs", Val: []float64{0.1, 2.5}},
-				{M: "Time", Key: "t", Val: seqx.TFix}, {M: "IPPrefix", Key: "net", Val: seqx.Net4}, {M: "Hex", Key: "hx", Val: []byte{1, 2, 3, 4}}, {M: "Bools", Key: "bs", Val: []bool{true, false}}, {M: "Str", Key: "tail", Val: strings.Repeat("t", 40)}},
+				{M: "Time", Key: "t", Val: seqx.TFix}, {M: "IPPrefix", Key: "net", Val: seqx.Net4}, {M: "Hex", Key: "hx", Val: []byte{1, 2, 3, 4}}, {M: "Bools", Key: "bs", Val: []bool{true, false}}, {M: "Str", Key: "tail", Val: strings.Repeat("t", 4200)}}, // (the tail makes the reader refill again after the fields)
 				evSite, []seqx.Entry{entryLog}, []seqx.Final{send})
 		}
 	}
@@ -157,7 +157,10 @@ func enumerateCbor(tier string, shard, n int, timeUp func() bool, emit func(p se
 	}
 	for _, t := range []time.Time{seqx.T0, seqx.TEp, seqx.TFix, seqx.TNeg, seqx.TNow, time.Unix(1, -1).UTC(), time.Unix(1700000000, 999999999), time.Unix(-1700000000, 1), time.Date(2262, 4, 11, 23, 47, 16, 854775807, time.UTC), time.Date(9999, 12, 31, 23, 59, 59, 0, time.UTC),
 		// sub-second instants outside the 1677..2262 range of a nanosecond count (fractions exact in binary)
-		time.Date(2300, 1, 2, 3, 4, 5, 500000000, time.UTC), time.Date(1500, 6, 7, 8, 9, 10, 250000000, time.UTC), time.Date(9999, 12, 31, 23, 59, 59, 500000000, time.UTC), time.Date(1, 1, 1, 0, 0, 0, 500000000, time.UTC)} {
+		time.Date(2300, 1, 2, 3, 4, 5, 500000000, time.UTC), time.Date(1500, 6, 7, 8, 9, 10, 250000000, time.UTC), time.Date(9999, 12, 31, 23, 59, 59, 500000000, time.UTC), time.Date(1, 1, 1, 0, 0, 0, 500000000, time.UTC),
+		// whole seconds on both sides of every head-width boundary of the integer form, and just below zero
+		time.Unix(-1, 0), time.Unix(-2, 0), time.Unix(-24, 0), time.Unix(-25, 0), time.Unix(-256, 0), time.Unix(-257, 0), time.Unix(-65536, 0), time.Unix(-65537, 0), time.Unix(-1<<32, 0), time.Unix(-1<<32-1, 0),
+		time.Unix(0, 0), time.Unix(1, 0), time.Unix(23, 0), time.Unix(24, 0), time.Unix(255, 0), time.Unix(256, 0), time.Unix(65535, 0), time.Unix(65536, 0), time.Unix(1<<32-1, 0), time.Unix(1<<32, 0)} {
 		at([]seqx.Field{{M: "Time", Key: "k", Val: t}}, pickSites(sites, "event", "context", "array", "fieldsmap"), []seqx.Entry{entryLog}, []seqx.Final{send})
 		at([]seqx.Field{{M: "Times", Key: "k", Val: []time.Time{t, seqx.TEp}}}, pickSites(sites, "event", "fieldsmap"), []seqx.Entry{entryLog}, []seqx.Final{send})
 	}
